@@ -26,7 +26,8 @@ RULE = ("scenarios: job document / project document writes (old document absent,
         "documents judged as ONE replacement (all write episodes of the call together: content before or after the call, "
         "nothing in between), Job.sync / Project.sync (doc_sync ByKey / update) into existing jobs with and without a "
         "document (the `<doc>~` roll-back copy counts as a temp file), the document "
-        "write of the v1->v2 migration (also with a custom workspace directory and a v1 cache file that is MOVED to its v2 name), Project.update_cache() on growing and shrinking workspaces (3..400 jobs; "
+        "Project.sync(COPY) between projects with different project documents, permission bits of the existing document / cache file "
+        "(as created, 0600, 0644, 0664, 0666) and process umask (as is, 002, 022, 077) varied, write of the v1->v2 migration (also with a custom workspace directory and a v1 cache file that is MOVED to its v2 name), Project.update_cache() on growing and shrinking workspaces (3..400 jobs; "
         "gzip stream in several chunks), update_cache() with an injected OSError at every call of the stream "
         "(clean-up branch), and the raw JSON backend with write_concern False/True; each with JSON thread support "
         "forced ON, forced OFF and AS SHIPPED (the class flags a fresh `import signac` of the tree under test leaves).  Per write episode (open .. rename/close) one case: the interposer's mutation trace "
@@ -47,6 +48,8 @@ TRUSTED = [
 ]
 ASSUMPTIONS = ["single writer per file; power loss / write-back reordering out of scope (as in the property)"]
 
+MODES = [None, 0o664, 0o600, 0o666, 0o644]     # None: as created under the sandbox's umask
+UMASKS = [None, 0o002, 0o077, 0o022]
 DOC_NAMES = ("signac_job_document.json", "signac_project_document.json", "statepoint_cache.json.gz")
 
 
@@ -122,6 +125,8 @@ def build(desc, root):
         old = _doc(desc["old"], 0)
         if old is not None:
             _write_plain(target, old)
+            if desc.get("mode") is not None:
+                os.chmod(target, desc["mode"])     # permission bits of the existing document (private .. group/world writable)
         new = _doc(desc["new"], 1)
         how = desc.get("how", "reset")
 
@@ -362,6 +367,9 @@ def build(desc, root):
             project.open_job(mk(i)).init()
         if desc["n0"] and desc.get("precache", True):
             project.update_cache()
+            if desc.get("mode") is not None:
+                # permission bits of the existing cache file (a project shared in a unix group: g+w)
+                os.chmod(os.path.join(root, ".signac", "statepoint_cache.json.gz"), desc["mode"])
         if desc.get("stale_tmp"):
             with open(os.path.join(root, ".signac", "statepoint_cache.json.gz~"), "wb") as fh:
                 fh.write(b"stale")
@@ -578,6 +586,7 @@ def run_scenario(desc, work):
     else:
         _set_threads(thr)
         thr_model = bool(thr)
+    umask0 = os.umask(desc["umask"]) if desc.get("umask") is not None else None
     try:
         root = os.path.join(work, "p")
         os.makedirs(root)
@@ -730,9 +739,13 @@ def run_scenario(desc, work):
                     # roll-back copy <doc>~) is just another name
                     old_names.append((1 if m.get(os.path.join(d, e)) == 1 else 2, [2]))
             site_ep = site
-            if desc["kind"] == "sync" and desc["doc_sync"] == "copy":
+            isjobdoc = base == "signac_job_document.json"
+            # known finding C10 tag 1 concerns the JOB document only; a write of the PROJECT document in a sync (whatever the
+            # doc_sync) must have the atomic shape (unchanged code: Project.sync(COPY) does not touch the project document)
+            if desc["kind"] == "sync" and desc["doc_sync"] == "copy" and isjobdoc:
                 site_ep = "SSyncCopy"            # known finding C10 tag 1: the document is copied as an ordinary file
-            elif desc["kind"] == "sync" and desc["doc_sync"] == "raising" and (a, b, t) == max(e for e in eps if e[2] == t):
+            elif (desc["kind"] == "sync" and desc["doc_sync"] == "raising" and isjobdoc
+                  and (a, b, t) == max(e for e in eps if e[2] == t)):
                 site_ep = "SRollback"            # ... and restored in place after the failing doc_sync (last episode)
             cases.append(emit(desc, site_ep, thr_model, old_names, chunks, None, steps, crash, rd, final,
                               {"episode": [a, b, norm_tmp(t)], "trace": [o.brief() for o in ops],
@@ -795,6 +808,8 @@ def run_scenario(desc, work):
                               nontrivial=False, force_mismatch=True))
     finally:
         _set_threads(True)
+        if umask0 is not None:
+            os.umask(umask0)
     # accounting: every scenario yields at least one case; the first one carries the scenario marker and the count
     assert cases, "scenario produced no case"
     cases[0].kinds = cases[0].kinds + ("scenarios-attempted",)
@@ -841,7 +856,11 @@ def gen_inputs(tier, rng):
                     if old == new:
                         continue
                     descs.append({"kind": kind, "threads": thr, "old": old, "new": new,
-                                  "how": rng.choice(["reset", "update", "set"]) if new != "empty" else "reset"})
+                                  "how": rng.choice(["reset", "update", "set"]) if new != "empty" else "reset",
+                                  # permission bits of the existing file and the process umask (dimensions that used to
+                                  # be whatever the sandbox has: 0644 / 022)
+                                  "mode": None if old == "absent" else rng.choice(MODES),
+                                  "umask": rng.choice(UMASKS)})
             # whole assignments over non-empty documents, judged as ONE replacement (content old or new, nothing between)
             for old, new, alias in (("small", "large", True), ("large", "small", False)) + (() if quick else (("small", "huge", False), ("huge", "empty", True))):
                 descs.append({"kind": kind, "threads": thr, "old": old, "new": new, "how": "assign", "alias": alias, "single_op": True})
@@ -857,6 +876,9 @@ def gen_inputs(tier, rng):
             # known finding C10 tag 1: doc_sync=COPY onto an existing destination document
             descs.append({"kind": "sync", "threads": thr, "api": api, "doc_sync": "copy", "dst": "with-doc",
                           "project_doc": False, "pad": rng.choice([10, 9000])})
+        # Project.sync(COPY) between projects whose PROJECT documents differ (not part of tag 1)
+        descs.append({"kind": "sync", "threads": thr, "api": "project", "doc_sync": "copy", "dst": "with-doc",
+                      "project_doc": True, "pad": 10})
         # ... and the roll-back after a raising doc_sync
         descs.append({"kind": "sync", "threads": thr, "api": "job", "doc_sync": "raising", "dst": "with-doc",
                       "project_doc": False, "pad": rng.choice([10, 9000])})
@@ -907,9 +929,11 @@ def gen_inputs(tier, rng):
         caches = [(0, 3, 0, False), (3, 5, 0, False), (5, 6, 3, False), (40, 120, 0, True)]
         if not quick:
             caches += [(0, 400, 0, False), (400, 401, 150, False), (120, 300, 20, True), (1, 2, 0, True)]
-        for n0, n1, rem, stale in caches:
+        for k, (n0, n1, rem, stale) in enumerate(caches):
+            # every configuration rewrites a group-writable (0664 / 0666), a private (0600) and a default cache
             descs.append({"kind": "cache", "threads": thr, "n0": n0, "n1": n1, "remove": rem, "stale_tmp": stale,
-                          "salt": "%06d" % rng.randint(0, 999999), "faults": True})
+                          "salt": "%06d" % rng.randint(0, 999999), "faults": True,
+                          "mode": MODES[k % len(MODES)] if n0 else None, "umask": UMASKS[k % len(UMASKS)]})
     flags = shipped_threads()
     for d in descs:
         if d["threads"] == "shipped":
